@@ -119,6 +119,22 @@ class P:
                     self.next(); self.ty()
                 self.eat("="); e = self.expr(); self.eat(";")
                 stmts.append(("let", pat, e))
+            elif self.at("if") and self._early_return_ahead():
+                # `if c { return E; }  rest…`  ==  `if c { E } else { rest… }`
+                self.next(); c = self.expr(0, True)
+                self.eat("{"); self.eat("return"); e = self.expr()
+                if self.at(";"): self.next()
+                self.eat("}")
+                rest = self._rest_of_block()
+                tail = ("if", c, ("block", [], e), rest)
+                return ("block", stmts, tail)
+            elif self.at("return"):
+                # a final `return E;` is the block's value
+                self.next(); e = self.expr()
+                if self.at(";"): self.next()
+                if not self.at("}"):
+                    raise Untranslatable("code after return")
+                tail = e
             else:
                 e = self.expr()
                 if self.at(";"):
@@ -127,6 +143,30 @@ class P:
                     tail = e
         self.eat("}")
         return ("block", stmts, tail)
+
+    def _early_return_ahead(self):
+        """is the `if` at the cursor of the form `if cond { return …; }` with no `else`?"""
+        j, depth = self.i + 1, 0
+        while j < len(self.t):
+            v = self.t[j][1]
+            if v == "{" and depth == 0:
+                break
+            depth += (v in "([") - (v in ")]")
+            j += 1
+        if j + 1 >= len(self.t) or self.t[j + 1][1] != "return":
+            return False
+        depth, k = 0, j
+        while k < len(self.t):
+            depth += (self.t[k][1] == "{") - (self.t[k][1] == "}")
+            if depth == 0:
+                break
+            k += 1
+        return k + 1 < len(self.t) and self.t[k + 1][1] != "else"
+
+    def _rest_of_block(self):
+        """the remaining statements of the current block, as a block (consumes the closing brace)"""
+        self.t.insert(self.i, ("op", "{"))
+        return self.block()
 
     def pat(self):
         if self.at("("):
